@@ -25,6 +25,7 @@ import RigModel.Model.Proto
 import RigModel.Model.C18Types
 import RigModel.Gen.Signatures
 import RigModel.Gen.C18Consts
+import RigModel.Gen.C18Bodies
 
 namespace Rig.C18
 open Rig.Gen.C18Consts
@@ -172,25 +173,6 @@ def bmpConnection (conns : List (List Int)) (c f b : Int) : Except Err (List Int
 
 /-! ## per-method wire rules -/
 
-inductive Ex where
-  | ref (n : String)     -- parameter of the method
-  | lit (v : Val)
-  | dyn                  -- computed from data (addresses, table keys, discovered chips)
-  | mask (n : String)    -- `1 << parameter`, or `sum(1 << b for b in parameter)` when it is an iterable
-  | first (n : String)   -- the parameter, or its first element when it is an iterable (`boards[0]`)
-  deriving Repr, DecidableEq
-
-inductive Op where
-  /-- `self._send_scp(x, y, p, cmd, ...)`; `app`: the application id the command carries, if the command carries one -/
-  | scp (x y p : Ex) (app : Option Ex)
-  /-- `self._get_connection(x, y).read/write(.., x, y, p, ..)` -/
-  | mem (x y p : Ex)
-  /-- `self.m(*pos, **kw)` - a decorated method, resolved again against the same stack -/
-  | call (m : String) (pos : List Ex) (kw : List (String × Ex))
-  /-- BMP: `self._send_scp(cabinet, frame, board, cmd, ...)`; `mask`: the board bit mask carried in arg2 -/
-  | bmp (c f b : Ex) (mask : Option Ex)
-  deriving Repr
-
 inductive PKind where | scp | mem | bmp
   deriving Repr, DecidableEq
 
@@ -325,15 +307,18 @@ def evalKw (bound : Dict) : List (String × Ex) → Dict
   | (k, e) :: t => (k, evalEx bound e) :: evalKw bound t
 
 /-- the datagrams a method may put on the wire, given its bound parameters and the
-context stack in force (inner decorated calls are resolved against the same stack) -/
-def wire (sigs : List Sig) (cls : String) : Nat → String → Dict → List Dict → List Pat
+context stack in force (inner decorated calls are resolved against the same stack); generic in the
+table of method bodies: the hand-written `bodyOf`, or the one extracted from the source (`genBody`) -/
+def wireB (body : String → String → List Op) (sigs : List Sig) (cls : String) :
+    Nat → String → Dict → List Dict → List Pat
   | 0, _, _, _ => []
   | fuel + 1, m, bound, stack =>
-    (bodyOf cls m).flatMap fun op =>
+    (body cls m).flatMap fun op =>
       match op with
       | .scp x y p app => [⟨.scp, evalEx bound x, evalEx bound y, evalEx bound p, app.map (evalEx bound)⟩]
       | .mem x y p => [⟨.mem, evalEx bound x, evalEx bound y, evalEx bound p, none⟩]
       | .bmp c f b mk => [⟨.bmp, evalEx bound c, evalEx bound f, evalEx bound b, mk.map (evalEx bound)⟩]
+      | .unknown _ => [⟨.scp, .dyn, .dyn, .dyn, some .dyn⟩]
       | .call m' pos kw =>
         match findSig sigs cls m' with
         | none => []
@@ -344,7 +329,11 @@ def wire (sigs : List Sig) (cls : String) : Nat → String → Dict → List Dic
           | .ok nk =>
             match bind s pv nk with
             | .error _ => []
-            | .ok b => wire sigs cls fuel m' b stack
+            | .ok b => wireB body sigs cls fuel m' b stack
+
+/-- the wire rules of the hand-written transcription (the one the oracle uses) -/
+abbrev wire (sigs : List Sig) (cls : String) : Nat → String → Dict → List Dict → List Pat :=
+  wireB bodyOf sigs cls
 
 def wireFuel : Nat := 8
 
@@ -400,21 +389,27 @@ structure APat where
   extra : Option (Option Ex)
   deriving Repr, DecidableEq
 
-def absWire (sigs : List Sig) (cls : String) : Nat → String → AEnv → List APat
+def absWireB (body : String → String → List Op) (sigs : List Sig) (cls : String) : Nat → String → AEnv → List APat
   | 0, _, _ => []
   | fuel + 1, m, env =>
-    (bodyOf cls m).flatMap fun op =>
+    (body cls m).flatMap fun op =>
       match op with
       | .scp x y p app => [⟨.scp, subst env x, subst env y, subst env p, app.map (subst env)⟩]
       | .mem x y p => [⟨.mem, subst env x, subst env y, subst env p, none⟩]
       | .bmp c f b mk => [⟨.bmp, subst env c, subst env f, subst env b, mk.map (subst env)⟩]
+      | .unknown _ => [⟨.scp, none, none, none, some none⟩]      -- nothing is known: fails every rule
       | .call m' pos kw =>
         match findSig sigs cls m' with
         | none => []
-        | some s => absWire sigs cls fuel m' (absEnv s env pos kw)
+        | some s => absWireB body sigs cls fuel m' (absEnv s env pos kw)
+
+abbrev absWire (sigs : List Sig) (cls : String) : Nat → String → AEnv → List APat := absWireB bodyOf sigs cls
 
 /-- the symbolic requests of a method called by the user -/
-def rulesOf (sigs : List Sig) (s : Sig) : List APat := absWire sigs s.cls wireFuel s.name env0
+def rulesOfB (body : String → String → List Op) (sigs : List Sig) (s : Sig) : List APat :=
+  absWireB body sigs s.cls wireFuel s.name env0
+
+abbrev rulesOf (sigs : List Sig) (s : Sig) : List APat := rulesOfB bodyOf sigs s
 
 /-- where a MachineController request may go -/
 inductive Chip where
@@ -454,7 +449,10 @@ def ruleOk (s : Sig) (ap : APat) : Bool :=
     (ap.extra == none || ap.extra == some (some (.ref "app_id")))
 
 /-- the core of some request is left to the context stack (not a function of the call's resolved arguments) -/
-def coreFromContext (sigs : List Sig) (s : Sig) : Bool := (rulesOf sigs s).any (fun ap => ap.c.isNone)
+def coreFromContextB (body : String → String → List Op) (sigs : List Sig) (s : Sig) : Bool :=
+  (rulesOfB body sigs s).any (fun ap => ap.c.isNone)
+
+abbrev coreFromContext (sigs : List Sig) (s : Sig) : Bool := coreFromContextB bodyOf sigs s
 
 /-! ## datagrams as observed on the (fake) connections -/
 
@@ -930,7 +928,17 @@ def handle (op : String) (j : Json) : R Json := do
       ("n_rules", jNat (rulesOf Rig.Gen.Signatures.sigs s).length),
       ("chip_known", .bool ((rulesOf Rig.Gen.Signatures.sigs s).all
         (fun ap => ap.a.isSome && ap.b.isSome && ap.extra != some none))),
-      ("core_from_context", .bool (coreFromContext Rig.Gen.Signatures.sigs s))]))
+      ("core_from_context", .bool (coreFromContext Rig.Gen.Signatures.sigs s)),
+      -- the table extracted from the source (Gen/C18Bodies.lean) against the same rules and against `bodyOf`
+      ("gen_rule_ok", .bool ((rulesOfB Rig.Gen.C18Bodies.genBody Rig.Gen.Signatures.sigs s).all (ruleOk s))),
+      ("gen_unknown", jList ((Rig.Gen.C18Bodies.genBody s.cls s.name).filterMap fun op => match op with
+        | .unknown w => some (Json.str w)
+        | _ => none)),
+      ("gen_same_rules", .bool (
+        let g := rulesOfB Rig.Gen.C18Bodies.genBody Rig.Gen.Signatures.sigs s
+        let h := rulesOf Rig.Gen.Signatures.sigs s
+        g.all (fun a => h.contains a) && h.all (fun a => g.contains a))),
+      ("gen_n_ops", jNat (Rig.Gen.C18Bodies.genBody s.cls s.name).length)]))
   | _ => .error s!"unknown op {op}"
 
 end Rig.C18
